@@ -10,6 +10,7 @@ import (
 	"os"
 	"os/exec"
 
+	"sigs.k8s.io/kustomize/api/krusty"
 	"sigs.k8s.io/kustomize/kyaml/filesys"
 )
 
@@ -215,6 +216,18 @@ func c01Tree(cs int64, forceCustom int) (*Tree, bool) {
 	} else if r.Intn(6) == 0 {
 		top.Kust["openapi"] = Obj{"version": "v1.21.2"}
 	}
+	// build metadata requested by SOME trees only: labels / annotations a build adds on request must not show up in the next one
+	if r3 := rand.New(rand.NewSource(cs ^ 0x3e7a)); r3.Intn(4) == 0 {
+		var bm []interface{}
+		for _, o := range []string{"managedByLabel", "originAnnotations", "transformerAnnotations"} {
+			if r3.Intn(2) == 0 {
+				bm = append(bm, o)
+			}
+		}
+		if len(bm) > 0 {
+			top.Kust["buildMetadata"] = bm
+		}
+	}
 	// schema-sensitive merges: a workload (or, under a shadowing custom schema, a custom kind reusing the built-in names)
 	// patched in lists whose merge key comes from the schema — what such a build emits depends on which definitions the
 	// references resolve to, so anything that outlives a schema switch shows here
@@ -252,6 +265,29 @@ func c01Tree(cs int64, forceCustom int) (*Tree, bool) {
 	return t, custom
 }
 
+// one Kustomizer (and one Options value) for every build of the process: `Run` may be called any number of times, and
+// nothing a build does may stay behind in it
+var c01Shared = krusty.MakeKustomizer(krusty.MakeDefaultOptions())
+
+func buildTreeShared(t *Tree) (string, string) {
+	fs := filesys.MakeFsInMemory()
+	if err := t.Write(fs, "/w"); err != nil {
+		return "", "write:" + err.Error()
+	}
+	out, err, _ := safeBuild(func() (string, error) {
+		m, err := c01Shared.Run(fs, t.TopDir("/w"))
+		if err != nil {
+			return "", err
+		}
+		b, err := m.AsYaml()
+		return string(b), err
+	})
+	if err != nil {
+		return "", err.Error()
+	}
+	return out, ""
+}
+
 func buildTreeMem(t *Tree) (string, string) {
 	fs := filesys.MakeFsInMemory()
 	if err := t.Write(fs, "/w"); err != nil {
@@ -272,7 +308,7 @@ func init() {
 		fc := fs.Int("custom", -1, "force custom schema")
 		fs.Parse(args)
 		t, _ := c01Tree(*seed, *fc)
-		out, e := buildTreeMem(t)
+		out, e := buildTreeShared(t)
 		b, _ := json.Marshal(map[string]string{"out": out, "err": e})
 		w := bufio.NewWriter(os.Stdout)
 		w.Write(b)
@@ -306,7 +342,7 @@ func init() {
 				hs := r.Int63()
 				ht, hc := c01Tree(hs, -1)
 				histCustom = histCustom || hc
-				buildTreeMem(ht)
+				buildTreeShared(ht)
 				hist = append(hist, map[string]interface{}{"seed": hs, "custom": hc})
 			}
 			cls := "ok"
@@ -321,7 +357,7 @@ func init() {
 			}
 			o.note(cls, map[string]interface{}{"seed": cs, "history": hist})
 			for k := 0; k < reps; k++ {
-				out, e := buildTreeMem(t)
+				out, e := buildTreeShared(t)
 				if out != ref["out"] || e != ref["err"] {
 					class := "history-or-repetition-dependence"
 					if histCustom && !custom {
